@@ -7,12 +7,3 @@ package stringy
 
 // The unit is the largest one the value EXCEEDS (1000 ns is still "ns"), the number is the value divided by that unit, one decimal.
 //@ fn r6LHuman(v float64) string := v > 1000000000 ? r6LFix1(v / 1000000000, "s") : (v > 1000000 ? r6LFix1(v / 1000000, "ms") : (v > 1000 ? r6LFix1(v / 1000, "us") : r6LFix1(v, "ns")))
-//@ func NanoSecondToHuman(v float64) string
-//@   props C13
-//@   nochan
-//@   ensures[seconds] v > 1000000000 ==> result == r6LFix1(v / 1000000000, "s")
-//@   ensures[milliseconds] v > 1000000 && v <= 1000000000 ==> result == r6LFix1(v / 1000000, "ms")
-//@   ensures[microseconds] v > 1000 && v <= 1000000 ==> result == r6LFix1(v / 1000, "us")
-//@   ensures[nanoseconds] v <= 1000 ==> result == r6LFix1(v, "ns")
-//@   ensures[as-one-function] result == r6LHuman(v)
-//@   modifies
